@@ -73,6 +73,7 @@ package carv1
 //@   ensures open_error_propagates [C02]: nerr != nil ==> err == nerr && result0 == nil
 
 //@ func loadCarFast
+//@   check clean_end_is_success [C02]: nerr == io.EOF && (len(buf) == 0 || ferr == nil) ==> err == nil && result0 == cr.Header
 //@   let blk, nerr := call[CarReader.Next#0]
 //@   let ferr := call[batchStore.PutMany#0]
 //@   let perr := call[batchStore.PutMany#1]
@@ -85,6 +86,7 @@ package carv1
 //@   loop[0] step batch_restarts_only_after_a_flush [C02]: len(buf) == 0 || len(buf) == athead(0, len(buf)) + 1
 
 //@ func loadCarSlow
+//@   ensures clean_end_is_success [C02]: nerr == io.EOF ==> err == nil && result0 == cr.Header
 //@   let blk, nerr := call[CarReader.Next#0]
 //@   let perr := call[Store.Put#0]
 //@   ensures nil_only_after_a_clean_end [C02]: err == nil ==> nerr == io.EOF && result0 == cr.Header
